@@ -13,12 +13,15 @@
     - [TRemove t], [TReAdd t]  [.remove()] / [add_ent] / [add_brush]: every part leaves / re-enters the map;
     - [TDestroy t]             the last reference of a removed object is dropped: the destructor of every part runs;
     - [TCreateSpawn m]         the worldspawn entity made by [VMF()]: an entity that is not in the map's entity list;
-    - [TCollapse s m]          [instancing.collapse_one(maps[m], inst, InstanceFile(maps[s]))]: every world brush in
-                               [maps[s].brushes], in list order, then every entity in [maps[s].entities], in list
-                               order, is copied into map [m] ([copy(vmf_file=maps[m])], fresh desired ID) and added to
-                               it.  Which objects those are is decided here, from the model's own lists: [torder] is
-                               the order in which the listed top-level objects were (last) added to their maps
-                               (hidden objects, which collapse_one skips, are not modelled).
+    - [THide t b]              [obj.hidden = b] (or [vis_shown = not b]) on a top-level object;
+    - [TCollapse s m keep]     [instancing.collapse_one(maps[m], inst, InstanceFile(maps[s]), visgroup=keep)]: every
+                               world brush in [maps[s].brushes] that is not hidden, in list order, then every entity
+                               in [maps[s].entities] (hidden ones only when visgroups are kept), in list order, is
+                               copied into map [m] ([copy(vmf_file=maps[m], keep_vis=keep)], fresh desired ID) and
+                               added to it.  Which objects those are is decided here, from the model's own lists:
+                               [torder] is the order in which the listed top-level objects were (last) added to
+                               their maps.  A copy inherits the hidden flag when visibility is kept ([copy()] keeps
+                               it by default).
     The state is the three single-kind worlds of SM/IdWorld.v plus, for every top-level object, the indexes of its
     parts in those worlds.  Parameters: the release / copy flags of the three kinds (read from the source).
     Executable definitions only; proofs are in SM/IdNestProofs.v. *)
@@ -27,7 +30,7 @@ From Coq Require Import ZArith.
 From SV Require Import SM.IdMan SM.IdWorld.
 Open Scope Z_scope.
 
-Record ttop := { tt_ent : option nat; tt_solids : list (nat * list nat); tt_home : nat; tt_listed : bool }.
+Record ttop := { tt_ent : option nat; tt_solids : list (nat * list nat); tt_home : nat; tt_listed : bool; tt_hidden : bool }.
 Record tworld := { tE : wworld; tS : wworld; tF : wworld; ttops : list ttop; torder : list nat }.
 Definition tw0 : tworld := {| tE := ww0; tS := ww0; tF := ww0; ttops := []; torder := [] |}.
 
@@ -39,7 +42,8 @@ Inductive tev :=
 | TReAdd (t : nat)
 | TDestroy (t : nat)
 | TCreateSpawn (m : nat)
-| TCollapse (s : nat) (m : nat).
+| THide (t : nat) (b : bool)
+| TCollapse (s : nat) (m : nat) (keep : bool).
 
 (** Index the next object of a world gets. *)
 Definition nobj (w : wworld) : nat := length (wobjs w).
@@ -68,7 +72,9 @@ Fixpoint copy_solids (wF : wworld) (m : nat) (explicit : bool) (ds : Z) (src : l
   end.
 
 Definition tset_listed (t : ttop) (b : bool) : ttop :=
-  {| tt_ent := tt_ent t; tt_solids := tt_solids t; tt_home := tt_home t; tt_listed := b |}.
+  {| tt_ent := tt_ent t; tt_solids := tt_solids t; tt_home := tt_home t; tt_listed := b; tt_hidden := tt_hidden t |}.
+Definition tset_hidden (t : ttop) (b : bool) : ttop :=
+  {| tt_ent := tt_ent t; tt_solids := tt_solids t; tt_home := tt_home t; tt_listed := tt_listed t; tt_hidden := b |}.
 
 (** The listed top-level objects of map [s] that are world brushes ([ents = false]) / entities ([ents = true]), in the
     order of the map's list. *)
@@ -79,6 +85,13 @@ Definition tsel (w : tworld) (s : nat) (ents : bool) (t : nat) : bool :=
   end.
 Definition tlisted_of (w : tworld) (s : nat) (ents : bool) : list nat :=
   filter (λ t, tsel w s ents t = true) (torder w).
+Definition thidden (w : tworld) (t : nat) : bool :=
+  match ttops w !! t with Some top => tt_hidden top | None => false end.
+(** What collapse_one copies out of map [s]: the visible listed brushes, then the listed entities (all of them when
+    visgroups are kept, the visible ones otherwise). *)
+Definition tcollapse_sources (w : tworld) (s : nat) (keep : bool) : list nat :=
+  filter (λ t, thidden w t = false) (tlisted_of w s false) ++
+  filter (λ t, keep || negb (thidden w t) = true) (tlisted_of w s true).
 
 Section nest.
   Variables rorE rorS rorF ctdE ctdS ctdF : bool.
@@ -98,16 +111,17 @@ Section nest.
 
   Definition tcreate (w : tworld) (m : nat) (ent : option Z) (sds : list (Z * list Z)) (listed : bool) : tworld :=
     let '(eS, eF, parts) := new_solids m sds (nobj (tS w)) (nobj (tF w)) in
-    let '(tops, order) := tnew w {| tt_ent := (λ _, nobj (tE w)) <$> ent; tt_solids := parts; tt_home := m; tt_listed := listed |} in
+    let '(tops, order) := tnew w {| tt_ent := (λ _, nobj (tE w)) <$> ent; tt_solids := parts; tt_home := m; tt_listed := listed;
+                                    tt_hidden := false |} in
     tapply w (from_option (λ d, [WCreate m d]) [] ent) eS eF tops order.
 
-  Definition tcopy (w : tworld) (t m : nat) (d : Z) (explicit : bool) : tworld :=
+  Definition tcopy (w : tworld) (t m : nat) (d : Z) (explicit keep : bool) : tworld :=
     match ttops w !! t with
     | Some top =>
         let ds := match tt_ent top with Some _ => -1 | None => d end in
         let '(eS, eF, parts) := copy_solids (tF w) m explicit ds (tt_solids top) (nobj (tS w)) (nobj (tF w)) in
         let '(tops, order) := tnew w {| tt_ent := (λ _, nobj (tE w)) <$> tt_ent top; tt_solids := parts;
-                                        tt_home := m; tt_listed := true |} in
+                                        tt_home := m; tt_listed := true; tt_hidden := keep && tt_hidden top |} in
         tapply w (from_option (λ e, [WCopy e m d]) [] (tt_ent top)) eS eF tops order
     | None => w
     end.
@@ -117,7 +131,12 @@ Section nest.
     | TCreateEnt m d sds => tcreate w m (Some d) sds true
     | TCreateBrush m sd => tcreate w m None [sd] true
     | TCreateSpawn m => tcreate w m (Some (-1)) [] false
-    | TCopy t m d explicit => tcopy w t m d explicit
+    | TCopy t m d explicit => tcopy w t m d explicit true
+    | THide t b =>
+        match ttops w !! t with
+        | Some top => tapply w [] [] [] (<[t := tset_hidden top b]> (ttops w)) (torder w)
+        | None => w
+        end
     | TRemove t =>
         match ttops w !! t with
         | Some top => if tt_listed top
@@ -136,9 +155,9 @@ Section nest.
         | Some top => if tt_listed top then w else tparts WDestroy w top (ttops w) (torder w)
         | None => w
         end
-    | TCollapse s m =>
+    | TCollapse s m keep =>
         if decide (s = m) then w
-        else fold_left (λ w t, tcopy w t m (-1) true) (tlisted_of w s false ++ tlisted_of w s true) w
+        else fold_left (λ w t, tcopy w t m (-1) true keep) (tcollapse_sources w s keep) w
     end.
 
   Definition trun (es : list tev) : tworld := fold_left tstep es tw0.
